@@ -555,6 +555,8 @@ def fix_variables(poly, fixed_variables):
         offset = 0.0
     poly_copy = defaultdict(float)
     for k, v in poly.items():
+        if not k:
+            continue  # the constant term is already in offset
         k = set(k)
         for var, value in fixed_variables.items():
             if var in k:
